@@ -59,13 +59,21 @@ func loopNames(fn *ssa.Function, li *loopInfo) []string {
 // loopPos: a position inside the loop where its variables are in scope.
 func loopPos(li *loopInfo) token.Pos {
 	var best token.Pos
+	var lo, hi token.Pos
+	if body, _ := funcBody(li.header.Parent()); body != nil {
+		lo, hi = body.Lbrace, body.Rbrace
+	}
 	for b := range li.blocks {
-		if b == li.header {
-			continue
-		}
 		for _, in := range b.Instrs {
+			if _, isPhi := in.(*ssa.Phi); isPhi {
+				continue
+			}
 			// the latest position in the loop is inside its body, where the loop variables are in scope
-			if p := in.Pos(); p.IsValid() && (best == token.NoPos || p > best) {
+			p := in.Pos()
+			if !p.IsValid() || (lo.IsValid() && (p < lo || p > hi)) {
+				continue
+			}
+			if best == token.NoPos || p > best {
 				best = p
 			}
 		}
@@ -101,7 +109,7 @@ func (f *frame) loopInvariants(b *ssa.BasicBlock, li *loopInfo, phis []*ssa.Phi)
 					pos := loopPos(li)
 					cl.loopVars = rangeLoopVars(li)
 					if err := f.vc.P.prepare(cl, f.fn, pos); err != nil {
-						unsup("loop invariant: %v", err)
+						unsup("loop invariant (checked at %s): %v", f.vc.P.fset.Position(pos), err)
 					}
 					out = append(out, &invariant{name: cl.Name, cl: cl, pos: pos})
 				}
@@ -520,6 +528,13 @@ func (f *frame) genCandidates(b *ssa.BasicBlock, li *loopInfo, phis []*ssa.Phi) 
 				return slt(get(f), t)
 			}})
 		}
+	}
+	// call-event bookkeeping: "no unrecorded call of w happened" is usually an invariant
+	for w := range f.vc.watch {
+		w := w
+		out = append(out, &autoCand{desc: "events of " + w + " are all recorded", term: func(f *frame, hdr *ssa.BasicBlock) Term {
+			return mkNot(f.st.get("G$tainted$"+w, SBool))
+		}})
 	}
 	// slices that only shrink from the front keep a valid shape; nothing to add: type invariants are assumed for phis.
 	_ = strings.Join
